@@ -23,7 +23,9 @@ RULE = ("universes of 1..4 documents (root + Loader documents) with embedded res
         "the raw pointer #/$defs/a/not selects a's subschema (or nothing), #/$defs/a~1not the member; ~5 %: two or three DISTINCT resources (embedded or "
         "Loader documents) whose URIs are near twins — trailing slash, empty path segment, one character percent-encoded (%2F, %3A, %7E ...) — "
         "each referenced, each reference must reach its own member; in draft-07 universes also $id with an empty fragment (`x.json#`: still a "
-        "base URI) and `$id: #name` beside `$ref` (ignored: designates nothing, shadows nothing); REGISTRY universes (~3 %, op "
+        "base URI), `$id`s with both a path and a plain-name fragment (`item.json#node`, ~4 %: no plain name `node` in the enclosing resource; `#node` "
+        "designates the `$id: #node` declared before / after it or nothing) and `$id: #name` beside `$ref` (ignored: designates nothing, shadows nothing); ~5 %: references that are a query and no path (`?v=2#/$defs/t`, `?rev=7#A`, `?x`): the base's "
+        "path with its query replaced — an embedded resource, a Loader document, or nothing (Resolve fails); REGISTRY universes (~3 %, op "
         "validate-go): a Loader that serves ONE parsed *Schema object under two URLs (/v1/ and /latest/), including the object being "
         "resolved, which refers to itself through the alias URL and to siblings by relative $ref — such a Loader is outside the Lean model "
         "(resolve_sound assumes LoaderFresh; one info table), so these operations are NOT sent to the model: they are judged by the "
@@ -71,6 +73,16 @@ def gen(rng, tier, n):
         if r < 0.16:
             # near-twin resource URIs (trailing slash, empty segment, one character percent-encoded): distinct resources
             args, meta = gen_refs.twin_universe(rng, "2020" if rng.random() < 0.75 else "7")
+            ops.append({"op": "validate", "args": args, "meta": meta})
+            continue
+        if r < 0.21:
+            # references made of a query (and a fragment) only: another resource than the referring one (embedded / Loader / none)
+            args, meta = gen_refs.query_universe(rng, "2020" if rng.random() < 0.7 else "7")
+            ops.append({"op": "validate", "args": args, "meta": meta})
+            continue
+        if r < 0.25:
+            # draft-07 $ids with both a path and a plain-name fragment: they define no plain name in the enclosing resource
+            args, meta = gen_refs.d7_path_fragment_id(rng)
             ops.append({"op": "validate", "args": args, "meta": meta})
             continue
         draft = "2020" if rng.random() < 0.75 else "7"
